@@ -495,7 +495,11 @@ def create_npu_activation(op: Operation, ofm_zero_point_is_0: bool = True) -> Np
     act = NpuActivation(act_op)
     act.min = op.activation.min
     act.max = op.activation.max
-    if act_op is NpuActivationOp.NONE_OR_RELU and op.type.is_avgpool_op() and not op.explicit_scaling and ofm_zero_point_is_0:
+    # (an average pool may have been converted to a convolution: explicit padding from a PAD, large kernels)
+    is_avgpool = op.type.is_avgpool_op() or (
+        op.original_type.is_avgpool_op() and op.type in (Op.Conv2DBias, Op.DepthwiseConv2DBias)
+    )
+    if act_op is NpuActivationOp.NONE_OR_RELU and is_avgpool and not op.explicit_scaling and ofm_zero_point_is_0:
         # The OFM zero point of the operation has been forced to 0, so it must be included in the activation range
         quant = op.ofm.quantization
         if quant and quant.zero_point:  # Zero point is not 0
